@@ -356,13 +356,65 @@ func (c *Ctx) Parallel(stream string, n int, f func(w *W)) {
 			defer w.Done()
 			defer func() {
 				if r := recover(); r != nil {
-					c.Inconclusive(fmt.Sprintf("harness panic in stream %s shard %d: %v\n%s", stream, i, r, debug.Stack()))
+					c.Panicked(fmt.Sprintf("stream %s shard %d", stream, i), r, debug.Stack())
 				}
 			}()
 			f(w)
 		}(i)
 	}
 	wg.Wait()
+}
+
+// LibraryPrefix is the import-path prefix of the code under test.
+const LibraryPrefix = "go.lstv.dev/util/"
+
+// PanicOrigin returns the first function below the panic call in a debug.Stack dump
+// that belongs to the code under test or to the harness (runtime and standard-library
+// frames in between are skipped: a bytes.Buffer misuse is attributed to its caller).
+func PanicOrigin(stack []byte) (fn string, library bool) {
+	lines := strings.Split(string(stack), "\n")
+	start := -1
+	for i, l := range lines {
+		if strings.HasPrefix(l, "panic(") {
+			start = i
+		}
+	}
+	for i := start + 1; start >= 0 && i < len(lines); i++ {
+		l := lines[i]
+		if l == "" || l[0] == '\t' {
+			continue
+		}
+		if strings.HasPrefix(l, LibraryPrefix) {
+			if j := strings.LastIndexByte(l, '('); j > 0 {
+				l = l[:j]
+			}
+			return l, true
+		}
+		if strings.HasPrefix(l, "verif/") || strings.HasPrefix(l, "main.") {
+			return l, false
+		}
+	}
+	return "", false
+}
+
+// Panicked records a panic that escaped a workload. When the panicking frame belongs to
+// the code under test the call did not return what the property demands: a violation
+// (the replay re-runs the property at the recorded tier and seed). A panic raised by
+// the harness itself proves nothing: inconclusive.
+func (c *Ctx) Panicked(where string, r any, stack []byte) {
+	if fn, lib := PanicOrigin(stack); lib {
+		st := string(stack)
+		if i := strings.LastIndex(st, "\npanic("); i >= 0 {
+			st = st[i+1:]
+		}
+		if len(st) > 1500 {
+			st = st[:1500]
+		}
+		c.Fail("library-panic:"+fn, "library-panic", Args("where", where, "function", fn), fmt.Sprintf("panic: %v\n%s", r, st), "the call returns",
+			"the code under test panicked inside a call the property requires to return a result")
+		return
+	}
+	c.Inconclusive(fmt.Sprintf("harness panic in %s: %v\n%s", where, r, stack))
 }
 
 // Serial runs f with a single worker recorder.
